@@ -134,6 +134,8 @@ type analysis struct {
 	HasLocks bool
 	// Gos: every go statement in scope (gofacts.go)
 	Gos []goFact
+	// MayNil: functions (FullName#result) that may return a nil pointer / interface with a nil error
+	MayNil []string
 	// Pages: iterators that turn pages (gofacts.go)
 	Pages []pageTurn
 }
@@ -178,12 +180,19 @@ func analyseScope(repo string, scope map[string]func(file string) bool, allowTex
 		return nil, err
 	}
 	an := &analysis{Allow: al}
+	summaries := mayNilSummaries(pkgs, func(name string) bool { return al.covers(name, "maynil-callee", "*") })
+	for name, ks := range summaries {
+		for k := range ks {
+			an.MayNil = append(an.MayNil, fmt.Sprintf("%s#%d", name, k))
+		}
+	}
+	sort.Strings(an.MayNil)
 	seen := map[string]bool{}
 	for _, l := range pkgs {
 		rel := strings.TrimPrefix(strings.TrimPrefix(l.Path, modPath), "/")
 		seen[rel] = true
 		filter := scope[rel]
-		x := &xl{fset: fset, l: l, repo: repo, sites: &an.Sites, allow: al, ctorMaps: ctorMapFields(l)}
+		x := &xl{fset: fset, l: l, repo: repo, sites: &an.Sites, allow: al, ctorMaps: ctorMapFields(l), mayNil: summaries}
 		if rel == "" {
 			an.Locks = lockFactsOf(l, only("session.go"), fset)
 			an.HasLocks = true
